@@ -946,8 +946,10 @@ def padding_widths(ctx, res, rule):
         if s_["pat"].get("p") == "bind" and s_["pat"].get("mode") == "BindingMode(No, Not)":
             defs[s_["pat"]["id"]] = s_["init"]
         i_ = T.peel(s_["init"])
-        if s_["pat"].get("p") == "tuple" and len(s_["pat"]["pats"]) == 2 and i_.get("k") == "if" and s_["pat"]["pats"][1].get("p") == "bind" \
-                and s_["pat"]["pats"][1].get("ty") == "usize" and "line_range" in T.render(i_["cond"]):
+        if s_["pat"].get("p") == "tuple" and len(s_["pat"]["pats"]) == 2 and s_["pat"]["pats"][1].get("p") == "bind" \
+                and s_["pat"]["pats"][1].get("ty") == "usize" and (
+                    (i_.get("k") == "if" and "line_range" in T.render(i_["cond"])) or
+                    (i_.get("k") == "match" and "line_range" in T.render(i_["scrut"]) and len(i_.get("arms", [])) == 2)):
             ofs_let = s_
     names = {}
 
@@ -956,9 +958,10 @@ def padding_widths(ctx, res, rule):
         k = n.get("k")
         if k == "lit" and isinstance(n["v"][0], int) and not isinstance(n["v"][0], bool):
             return {"1": n["v"][0]} if n["v"][0] else {}
-        v = T.lit_value(n)
-        if isinstance(v, int) and not isinstance(v, bool) and k == "path":
-            return {T.short_path(T.render(n)).split("::")[-1]: 1}
+        if k == "path" and str((n.get("res") or {}).get("dk", "")).startswith(("Const", "AssocConst")):
+            cv = const_value(P, n["res"].get("path"))
+            if cv is not None:
+                return {"1": cv} if cv else {}
         if k == "binary" and n["op"] in ("+", "-") and not n.get("overloaded"):
             a_, b_ = lin_of(n["l"], depth), lin_of(n["r"], depth)
             return None if a_ is None or b_ is None else linear.combine(a_, b_, 1 if n["op"] == "+" else -1)
@@ -1046,7 +1049,16 @@ def padding_widths(ctx, res, rule):
         while blk is not None and blk.get("k") in ("blockexpr", "block"):
             blk = blk["block"] if blk.get("k") == "blockexpr" else (T.peel(blk["tail"]) if blk.get("tail") is not None else None)
         return blk if blk is not None and blk.get("k") == "tuple" and len(blk.get("es", blk.get("elems", []))) == 2 else None
-    th, el = tail_tuple(i_["then"]), tail_tuple(i_["els"]) if i_.get("els") is not None else None
+    if i_.get("k") == "match":
+        some_arm = [a_ for a_ in i_["arms"] if "Some" in T.render({"k": "match", "scrut": i_["scrut"], "arms": [a_]}).split("=>")[0]]
+        none_arm = [a_ for a_ in i_["arms"] if a_ not in some_arm]
+        if len(some_arm) != 1 or len(none_arm) != 1:
+            res.cannot(rule, fn, "offset", "the arms of the (code block, offset) selection are not Some / None", T.loc(ofs_let))
+            return
+        then_, els_ = some_arm[0]["body"], none_arm[0]["body"]
+    else:
+        then_, els_ = i_["then"], i_.get("els")
+    th, el = tail_tuple(then_), tail_tuple(els_) if els_ is not None else None
     if th is None or el is None:
         res.cannot(rule, fn, "offset", "the branches of the (code block, offset) selection are not pairs", T.loc(ofs_let))
         return
@@ -1058,7 +1070,7 @@ def padding_widths(ctx, res, rule):
         res.add(Finding(rule, fn, "offset:none", "without line numbers the marker offset is `%s`, not 0: the markers leave the column of the removed text" % T.render(elems(el)[1]), loc=T.loc(ofs_let)))
     some_ofs = lin_of(elems(th)[1])
     snips = []
-    for n, _ in T.walk(i_["then"]):
+    for n, _ in T.walk(then_):
         sn = n.get("snip")
         if sn and sn.startswith("format!") and sn not in snips:
             snips.append(sn)
@@ -1066,7 +1078,7 @@ def padding_widths(ctx, res, rule):
     if len(col) != 1:
         res.cannot(rule, fn, "offset:some", "the number column is not produced by one width-formatted `format!` (found %d)" % len(col), T.loc(ofs_let))
         return
-    w = format_width(col[0])
+    w = format_width(col[0], lambda name: const_by_name(P, name))
     if w is None:
         res.cannot(rule, fn, "offset:some", "the width of `%s` could not be read off its format string" % col[0][:70], T.loc(ofs_let))
         return
@@ -1076,7 +1088,37 @@ def padding_widths(ctx, res, rule):
         res.add(Finding(rule, fn, "offset:some", "the number column `%s` is %s wide but the markers are shifted by %s" % (col[0][:80], linear.show(w), linear.show(some_ofs or {})), loc=T.loc(ofs_let)))
 
 
-def format_width(snip):
+def const_value(P, path, depth=0):
+    """Integer value of a constant whose initialiser is built from literals, other constants, + - *; None otherwise."""
+    if path in T.CONSTS and isinstance(T.CONSTS[path], int) and not isinstance(T.CONSTS[path], bool):
+        return T.CONSTS[path]
+    b = P.bodies.get(path)
+    if b is None or depth > 6:
+        return None
+
+    def ev(n):
+        n = T.peel(n)
+        k = n.get("k")
+        if k == "lit" and isinstance(n["v"][0], int) and not isinstance(n["v"][0], bool):
+            return n["v"][0]
+        if k == "path" and str((n.get("res") or {}).get("dk", "")).startswith(("Const", "AssocConst")):
+            return const_value(P, n["res"].get("path"), depth + 1)
+        if k == "binary" and n["op"] in ("+", "-", "*"):
+            a_, b_ = ev(n["l"]), ev(n["r"])
+            if a_ is None or b_ is None:
+                return None
+            return a_ + b_ if n["op"] == "+" else (a_ - b_ if n["op"] == "-" else a_ * b_)
+        return None
+    return ev(b["tree"])
+
+
+def const_by_name(P, name):
+    name = name.split("::")[-1]
+    vs = {const_value(P, p_) for p_, b in P.bodies.items() if (b.get("kind") or "").startswith(("Const", "AssocConst")) and p_.split("::")[-1] == name}
+    return vs.pop() if len(vs) == 1 else None
+
+
+def format_width(snip, const=lambda name: None):
     """Width of the text a `format!("..", args)` call produces, as a linear form, when every placeholder is either
     width-formatted (`{:w$}`, `{:8}`; content assumed not wider) or a string literal argument; None if it cannot be told."""
     m = re.match(r'^format!\(\s*"((?:[^"\\]|\\.)*)"\s*(?:,(.*))?\)$', snip, re.S)
@@ -1116,6 +1158,8 @@ def format_width(snip):
             sg = -1 if sign == "-" else 1
             if tok.isdigit():
                 out["1"] = out.get("1", 0) + sg * int(tok)
+            elif const(tok) is not None:
+                out["1"] = out.get("1", 0) + sg * const(tok)
             else:
                 key = tok.split("::")[-1]
                 out[key] = out.get(key, 0) + sg
@@ -1145,14 +1189,16 @@ def format_width(snip):
                 if mw.group(1):
                     wl = {"1": int(mw.group(1))}
                 else:
-                    src = named.get(mw.group(2))
-                    wl = lin_text(src) if src is not None else None
+                    src = named.get(mw.group(2), mw.group(2))      # `{i:WIDTH$}` captures an identifier in scope
+                    wl = lin_text(src)
                 if wl is None:
                     return None
                 for k_, v_ in wl.items():
                     total[k_] = total.get(k_, 0) + v_
             elif f_ == "" and name == "" and argi < len(positional) and re.match(r'^"[^"\\]*"$', positional[argi]):
                 total["1"] = total.get("1", 0) + len(positional[argi]) - 2
+            elif f_ == "" and re.match(r'^(?:\{\w*\}|\\n|\\r)*$', fmt[i:]):
+                break       # the line's own text (and its line break) follow the column: `{:w$} |{l}\n`
             else:
                 return None
             i = j + 1
